@@ -7,5 +7,5 @@ PROP = dict(
     trusted_base=['z3 5.1 / cvc5 1.0.3', 'pyvc symbolic executor (DESIGN.md §2)'],
     manifest=dict(text='Proof: check_link_integrity and check_association_integrity are proved, for every model and every partner count, to return the number of (instance, end) pairs outside the end multiplicity, by loop invariants over recursive spec functions.',
                   note='Callee contracts Link.navigate / select_many as stated in contracts/c02.py, contracts/c09.py; optparse and loading are outside the deductive part.',
-                  technique='contract-based deductive verification (pyvc: ast->z3 VCs on the real source) + bounded run-time contracts for the rest'),
+                  technique="contract-based deductive verification: sidecar contracts on the real functions, verification conditions generated from the current source of /repo on every run by pyvc (Python AST -> z3/cvc5), every obligation discharged function by function; bounded stand-in (run-time contracts on the real functions driven by small-scope enumeration; labelled bounded, never counted as proved) for the functions outside the verifier's reach, reported separately"),
 )
